@@ -131,12 +131,15 @@ func crashBytes(b []byte) string {
 const hangBudget = 30 * time.Second
 
 // guardHang runs one entry-point call; a panic or a call that does not return is reported.
-func guardHang(name string, f func()) string {
-	pv, st, hung := mon.GuardTimed(f, hangBudget)
+func guardHang(name string, f func()) string { return guardHangWithin(name, f, hangBudget) }
+
+// guardHangWithin is guardHang with another budget for the first run (the second, alone, gets ten times as much).
+func guardHangWithin(name string, f func(), budget time.Duration) string {
+	pv, st, hung := mon.GuardTimed(f, budget)
 	if hung {
 		// slow or hung? the same call again, alone, with ten times the budget
-		if _, _, again := mon.GuardTimed(f, 10*hangBudget); again {
-			return name + " does not return (no result after " + (10 * hangBudget).String() + ", alone)"
+		if _, _, again := mon.GuardTimed(f, 10*budget); again {
+			return name + " does not return (no result after " + (10 * budget).String() + ", alone)"
 		}
 		return ""
 	}
@@ -809,7 +812,8 @@ func c10(x *mon.Ctx) {
 							o.Getter = &trust.RetryHTTPSGetter{Timeout: 150 * time.Millisecond, MaxRetryDelay: 20 * time.Millisecond, Getter: &trust.SimpleHTTPSGetter{}}
 						}
 						m := mon.MessageFor("built", cs.Quote)
-						p := guardHang("verify.TdxQuote(production getter)", func() { _ = verify.TdxQuote(m, o) })
+						// (every endpoint fails at once here: the call takes milliseconds, or the retry budget of 150 ms)
+						p := guardHangWithin("verify.TdxQuote(production getter)", func() { _ = verify.TdxQuote(m, o) }, 8*time.Second)
 						param := fmt.Sprintf("throttled/%s/retry-after=%s/h2=%v/retrying=%v", code, ra, h2, ri%2 == 1)
 						if p != "" {
 							x.Violation("hostile-response-over-real-http", param, p, "none", nil)
